@@ -333,6 +333,11 @@ KNOWN = [
          match=lambda c: c['w'] == 'im2col' and vals(c).get('H', 28) != vals(c).get('W', 28),
          text='im2col with a non-square input (H != W) fails its GPU-vs-CPU verification (or runs the emulator into undecodable code) '
               'for every kernel/stride/padding/dilation choice; all square inputs pass; conv2d passes for the same shapes'),
+    dict(id='conv2d-padding-out-of-bounds', witness='conv2d -N=2 -H=9 -pad-y=1', timeout=60,
+         match=lambda c: c['w'] == 'conv2d' and vals(c).get('pad-y', 0) >= 1 and vals(c).get('N', 1) >= 2 and vals(c).get('H', 28) != vals(c).get('W', 28),
+         text='conv2d with batch >= 2, a non-square input and padding in y panics "page not found in page table" in emulation '
+              '(conv2d -N=2 -H=9 -pad-y=1 with the default W=28; also N=3 pad-y=2): a kernel of the convolution addresses memory outside '
+              'its buffers, which faults only when the address leaves the mapped pages (N=1, square inputs, W=8/11 pass)'),
     dict(id='stencil2d-column-count', witness='stencil2d -row=64 -col=66', timeout=60,
          match=lambda c: c['w'] == 'stencil2d' and vals(c).get('col', 64) not in (64, 127, 128, 192),
          text='stencil2d with a column count other than 64/127/128/192 (e.g. -col=66: one full 64-lane work-group) makes the emulator '
